@@ -332,10 +332,17 @@ pub struct RunState {
     pub held_finish: Vec<(usize, u64)>,
     pub vnow: u64,
     pub polls_since_external: usize,
+    pub max_polls_since_external: usize,
     pub call_counter: u64,
     pub yielded: Vec<bool>,
     pub ref_dropped: Vec<bool>,
     pub intr_delivered: bool,
+    /// stream runs: per function, predecessors (in the run's direction) whose FnRef
+    /// has not been dropped yet
+    pub undropped_preds: Vec<usize>,
+    pub succs_dir: Vec<Vec<usize>>,
+    /// number of unyielded functions all of whose predecessors were yielded and dropped
+    pub releasable_unyielded: usize,
 }
 
 #[cfg(feature = "interruptible")]
@@ -615,8 +622,17 @@ impl World {
                             rs.vnow = fin;
                         }
                     }
-                    if pos.is_some() && id < rs.ref_dropped.len() {
+                    if pos.is_some() && id < rs.ref_dropped.len() && !rs.ref_dropped[id] {
                         rs.ref_dropped[id] = true;
+                        for k in 0..rs.succs_dir.get(id).map_or(0, |v| v.len()) {
+                            let s = rs.succs_dir[id][k];
+                            if rs.undropped_preds[s] > 0 {
+                                rs.undropped_preds[s] -= 1;
+                                if rs.undropped_preds[s] == 0 && !rs.yielded[s] {
+                                    rs.releasable_unyielded += 1;
+                                }
+                            }
+                        }
                     }
                     pos.map(|p| rs.held.remove(p))
                 };
